@@ -24,6 +24,12 @@ Both produce the same RAW event format (list of dicts, absolute paths):
 
 `canonicalise` projects a raw trace on the alphabet of coq/Model/Durable.v (projection rules in its
 docstring).  The mutation switches exist only for the oracle's sensitivity self-test.
+
+Fault injection (InProcessTracer(fault={"index": k[, "kind": "short_write"]})): the k-th durability call of
+the run (temp creation, write, descriptor opened for an fsync, fsync, rename -- lock files excluded) raises
+OSError(EIO) instead of being executed, or, for a write with kind short_write, transfers only half of the
+bytes and returns that count.  Every durability call is listed in .faultlog, so a fault-free probe run
+enumerates the fault points of a scenario.
 """
 from __future__ import annotations
 
@@ -59,12 +65,39 @@ def _flag_list(flags: int) -> List[str]:
 class InProcessTracer:
     """with InProcessTracer(root, mutate=...) as t: ... ; t.events"""
 
-    def __init__(self, root: str, mutate: Optional[str] = None):
+    def __init__(self, root: str, mutate: Optional[str] = None, fault: Optional[Dict[str, Any]] = None):
         self.root = os.path.realpath(root)
         self.events: List[Dict[str, Any]] = []
         self.fds: Dict[int, str] = {}
         self.mutate = mutate
         self._saved: List[Tuple[Any, str, Any]] = []
+        # fault injection: the `index`-th durability call (counted over the whole run) raises OSError(EIO)
+        # instead of being executed; every durability call is logged so that a probe run enumerates them
+        self.fault = fault
+        self.faultlog: List[Dict[str, Any]] = []
+
+    def durability_call(self, call: str, module: str, path: Any, isdir: bool = False) -> Optional[str]:
+        """Called BEFORE a call that a publish sequence depends on (temp creation, write, descriptor for
+        fsync, fsync, rename).  Raises the injected fault when this is the chosen call."""
+        if module == "file_lock":
+            return                      # lock files: property C19; a fault there only makes acquire() retry
+        i = len(self.faultlog)
+        try:
+            rel = os.path.relpath(self._abs(path), self.root)
+        except Exception:
+            rel = str(path)
+        self.faultlog.append({"i": i, "call": call, "module": module, "path": rel, "isdir": bool(isdir)})
+        if self.fault is not None and self.fault.get("index") == i:
+            import errno
+            self.faultlog[-1]["injected"] = True
+            if self.fault.get("kind") == "short_write" and call == "write":
+                # POSIX short write: write(2) transfers fewer bytes than asked and says so in its return value
+                self.faultlog[-1]["call"] = "short-write"
+                self.emit(op="mark", label=f"fault:{i}:short-write:{rel}")
+                return "short"
+            self.emit(op="mark", label=f"fault:{i}:{call}:{rel}")
+            raise OSError(errno.EIO, f"injected fault at durability call #{i} ({call} {rel})")
+        return None
 
     # -- recording
     def _abs(self, p: Any) -> str:
@@ -105,7 +138,7 @@ class InProcessTracer:
             if getattr(m, "os", None) is os:
                 self._patch(m, "os", _OsProxy(self, short))
             if getattr(m, "tempfile", None) is tempfile:
-                self._patch(m, "tempfile", _TempfileProxy(self))
+                self._patch(m, "tempfile", _TempfileProxy(self, short))
             pq = getattr(m, "pq", None)
             if pq is not None and getattr(pq, "__name__", "") == "pyarrow.parquet":
                 self._patch(m, "pq", _PqProxy(self, pq))
@@ -130,11 +163,14 @@ class _OsProxy:
         return getattr(os, name)
 
     def open(self, path: Any, flags: int, mode: int = 0o777, *, dir_fd: Any = None) -> int:
+        self._t.durability_call("open", self._m, path, os.path.isdir(path))
         fd = os.open(path, flags, mode) if dir_fd is None else os.open(path, flags, mode, dir_fd=dir_fd)
         self._t.on_open(fd, path, flags)
         return fd
 
     def write(self, fd: int, data: Any) -> int:
+        if self._t.durability_call("write", self._m, self._t.fds.get(fd, str(fd))) == "short" and len(data) > 1:
+            data = bytes(data)[: len(data) // 2]
         n = os.write(fd, data)
         p = self._t.fds.get(fd)
         if p is None:
@@ -162,6 +198,7 @@ class _OsProxy:
     def fsync(self, fd: int) -> None:
         if self._skip_fsync(fd):
             return
+        self._t.durability_call("fsync", self._m, self._t.fds.get(fd, str(fd)), os.path.isdir(self._t.fds.get(fd, "")))
         if self._t.mutate == "dir_fsync_eio" and self._m == "data_operations" and os.path.isdir(self._t.fds.get(fd, "")):
             import errno
             raise OSError(errno.EIO, "injected: directory fsync failed")     # fault variant (the library swallows it)
@@ -171,6 +208,7 @@ class _OsProxy:
     def fdatasync(self, fd: int) -> None:
         if self._skip_fsync(fd):
             return
+        self._t.durability_call("fsync", self._m, self._t.fds.get(fd, str(fd)), os.path.isdir(self._t.fds.get(fd, "")))
         os.fdatasync(fd)
         self._t.on_fsync(fd)
 
@@ -179,10 +217,12 @@ class _OsProxy:
         self._t.fds.pop(fd, None)
 
     def replace(self, a: Any, b: Any, **kw: Any) -> None:
+        self._t.durability_call("rename", self._m, b)
         os.replace(a, b, **kw)
         self._t.emit(op="rename", path=self._t._abs(a), path2=self._t._abs(b))
 
     def rename(self, a: Any, b: Any, **kw: Any) -> None:
+        self._t.durability_call("rename", self._m, b)
         os.rename(a, b, **kw)
         self._t.emit(op="rename", path=self._t._abs(a), path2=self._t._abs(b))
 
@@ -230,18 +270,21 @@ class _OsProxy:
 
 
 class _TempfileProxy:
-    def __init__(self, tracer: InProcessTracer):
+    def __init__(self, tracer: InProcessTracer, module: str = "?"):
         self._t = tracer
+        self._m = module
 
     def __getattr__(self, name: str) -> Any:
         return getattr(tempfile, name)
 
     def mkstemp(self, *a: Any, **kw: Any) -> Tuple[int, str]:
+        self._t.durability_call("create", self._m, os.path.join(kw.get("dir") or ".", "<temp>" + str(kw.get("suffix") or "")))
         fd, path = tempfile.mkstemp(*a, **kw)
         self._t.on_open(fd, path, os.O_RDWR | os.O_CREAT | os.O_EXCL)
         return fd, path
 
     def NamedTemporaryFile(self, *a: Any, **kw: Any) -> Any:
+        self._t.durability_call("create", self._m, os.path.join(kw.get("dir") or ".", "<temp>" + str(kw.get("suffix") or "")))
         f = tempfile.NamedTemporaryFile(*a, **kw)
         if kw.get("delete", True):
             self._t.emit(op="other", call="NamedTemporaryFile(delete=True)", path=self._t._abs(f.name))
